@@ -81,7 +81,7 @@ func invoke(client *core.Client) (err error, panicked interface{}) {
 func TestCheck(t *testing.T) {
 	r := h.Start(t, "C18")
 	defer r.Finish()
-	r.Meta("rule", "the seven real balancers are installed on a real core.Client in front of a terminal handler that records the chosen URL and scripts outcomes (success/error/panic/hold). Exhaustive: all weight vectors n in 1..4, weights in 1..5 (780 vectors) x 3 full cycles for weighted round-robin (count per cycle = weight/gcd) and nginx smooth weighted round-robin (count per cycle = weight); round-robin n in 1..8 (every window of n consecutive picks is a permutation); membership of every pick; least-active and weighted least-active with a held-call harness: seeded park/release walks, each probe pick must be in the argmin of the harness's own in-flight vector, accessor VerifActives() must equal that vector at every step and be all zero at quiescence also after errors and panics; failure-aware balancers: VerifEffectiveWeights() compared after every call with the recurrence from the statement (failure -1 floor 0, success +1 cap weight) over all outcome histories of length <= 6 (n<=2 exhaustive, sampled above), share of the next full cycle after recovery equals the weights exactly (nginx), 6-sigma share test for weighted random; 16 concurrent callers with mixed outcomes under the race detector: membership, counters back to zero, weights within [0, weight]. distinct_nontrivial = distinct (balancer, weight vector or walk, outcome history) combinations Added: one always-failing server at every position of the balancer's own order (effective weight 0 => not picked while another is healthy); the server list shortened while calls are parked on least-active.")
+	r.Meta("rule", "the seven real balancers are installed on a real core.Client in front of a terminal handler that records the chosen URL and scripts outcomes (success/error/panic/hold). Exhaustive: all weight vectors n in 1..4, weights in 1..5 (780 vectors) x 3 full cycles for weighted round-robin (count per cycle = weight/gcd) and nginx smooth weighted round-robin (count per cycle = weight); round-robin n in 1..8 (every window of n consecutive picks is a permutation); membership of every pick; least-active and weighted least-active with a held-call harness: seeded park/release walks, each probe pick must be in the argmin of the harness's own in-flight vector, accessor VerifActives() must equal that vector at every step and be all zero at quiescence also after errors and panics; failure-aware balancers: VerifEffectiveWeights() compared after every call with the recurrence from the statement (failure -1 floor 0, success +1 cap weight) over all outcome histories of length <= 6 (n<=2 exhaustive, sampled above), share of the next full cycle after recovery equals the weights exactly (nginx), 6-sigma share test for weighted random; 16 concurrent callers with mixed outcomes under the race detector: membership, counters back to zero, weights within [0, weight]. distinct_nontrivial = distinct (balancer, weight vector or walk, outcome history) combinations Added: one always-failing server at every position of the balancer's own order (effective weight 0 => not picked while another is healthy); the server list shortened while calls are parked on least-active; the server list replaced by a shorter or longer one (1..6 servers, same or new servers) after every number of calls 0..2n for round-robin, random and least-active: no panic, picks in the current list, round-robin windows cover the new list.")
 	r.Meta("assumptions", []string{
 		"least-active is checked with sequential probes against parked calls (under true concurrency two picks may legitimately read the same minimum)",
 		"weighted random: 6-sigma binomial bound over 100000 picks (false-alarm probability < 1e-8 per server)",
@@ -117,6 +117,12 @@ func TestCheck(t *testing.T) {
 	for n := 2; n <= 4; n++ {
 		n := n
 		r.Case(fmt.Sprintf("least-active/shrink-while-busy/n%d", n), func(c *h.Case) { shrinkWhileBusy(c, n) })
+	}
+	for _, kind := range []string{"round-robin", "random", "least-active"} {
+		for n := 1; n <= 6; n++ {
+			kind, n := kind, n
+			r.Case(fmt.Sprintf("resize/%s/n%d", kind, n), func(c *h.Case) { resizeList(c, kind, n) })
+		}
 	}
 	r.Case("random/membership-and-share", func(c *h.Case) { randomShare(c) })
 	for k := 0; k < r.Pick(6, 60); k++ {
@@ -779,6 +785,80 @@ func failingShare(c *h.Case, w []int) {
 				c.Violation("failing-server-keeps-its-share:"+name, fmt.Sprintf("the server at position %d of %d (weight %d) has effective weight 0, the others are healthy, and it was still picked %d times in the next 300 calls", p, n, lbW[p], picked), rep)
 			}
 			c.R.Distinct(fmt.Sprintf("failing-share|%s|%v|%d", name, w, p))
+		}
+	}
+}
+
+// resizeList: the client's server list is replaced by one of another length (1..6, shorter and
+// longer, a prefix of the old list or entirely new servers) after every number of calls 0..2n of
+// the balancers that read the list per call. No call panics or fails, every pick is in the
+// current list, and round-robin covers every server of the new list in each window of its
+// length once it has gone round once.
+func resizeList(c *h.Case, kind string, n int) {
+	for m := 1; m <= 6; m++ {
+		if m == n {
+			continue
+		}
+		for pos := 0; pos <= 2*n; pos++ {
+			for _, fresh := range []bool{false, true} {
+				urls := urlsN(n)
+				client := core.NewClient(urls...)
+				tm := newTerm(func(int, string) byte { return 'S' })
+				var lb core.PluginHandler
+				switch kind {
+				case "round-robin":
+					lb = lbp.NewRoundRobinLoadBalance()
+				case "random":
+					lb = lbp.NewRandomLoadBalance()
+				default:
+					lb = lbp.NewLeastActiveLoadBalance()
+				}
+				client.Use(lb, tm.handler)
+				for i := 0; i < pos; i++ {
+					invoke(client)
+				}
+				now := urlsN(6)[:m]
+				if fresh {
+					now = nil
+					for i := 0; i < m; i++ {
+						now = append(now, fmt.Sprintf("mock://other%d", i))
+					}
+				}
+				client.SetURI(now...)
+				rep := map[string]interface{}{"balancer": kind, "servers_before": n, "servers_after": m, "calls_before_the_change": pos, "new_servers": fresh}
+				bad := false
+				for i := 0; i < 3*m && !bad; i++ {
+					before := len(tm.picks)
+					err, p := invoke(client)
+					c.R.Eval(1)
+					switch {
+					case p != nil:
+						c.Violation("panic-after-the-server-list-changed:"+kind, fmt.Sprintf("call %d after the list went from %d to %d servers (after %d calls) panicked: %v", i, n, m, pos, p), rep)
+						bad = true
+					case err != nil:
+						c.Violation("error-after-the-server-list-changed:"+kind, fmt.Sprintf("call %d: %v", i, err), rep)
+						bad = true
+					case len(tm.picks) != before+1 || !member(tm.picks[before], now):
+						c.Violation("pick-not-a-configured-server:"+kind+"-after-resize", fmt.Sprint(tm.picks[before:]), rep)
+						bad = true
+					}
+				}
+				if kind == "round-robin" && !bad {
+					after := tm.picks[pos:]
+					rep["picks_after"] = after
+					for i := m; i+m <= len(after); i++ {
+						seen := map[string]bool{}
+						for _, u := range after[i : i+m] {
+							seen[u] = true
+						}
+						if len(seen) != m {
+							c.Violation("round-robin-window-misses-a-server:after-resize", fmt.Sprintf("%d -> %d servers after %d calls: picks %v do not cover the new list", n, m, pos, after[i:i+m]), rep)
+							break
+						}
+					}
+				}
+				c.R.Distinct(fmt.Sprintf("resize|%s|%d|%d|%d|%v", kind, n, m, pos, fresh))
+			}
 		}
 	}
 }
